@@ -1,6 +1,8 @@
 use crate::{Failure, Rng};
 use temporal_rs::primitive::FiniteF64 as F;
 use temporal_rs::Duration;
+use temporal_rs::options::{RoundingIncrement, RoundingMode, RoundingOptions, Unit};
+use crate::oracle;
 use std::panic::catch_unwind;
 
 const LIMIT_NS: i128 = 9_007_199_254_740_992 * 1_000_000_000;
@@ -31,6 +33,79 @@ fn check(f: [i128; 10], fails: &mut Vec<Failure>) {
     }
 }
 
+fn mk(f: [i128; 10]) -> Option<Duration> {
+    let x = |k: usize| F::try_from(f[k] as f64).ok();
+    Duration::new(x(0)?, x(1)?, x(2)?, x(3)?, x(4)?, x(5)?, x(6)?, x(7)?, x(8)?, x(9)?).ok()
+}
+fn fields(d: &Duration) -> [i128; 10] {
+    let g = |x: F| x.as_inner() as i128;
+    [g(d.years()), g(d.months()), g(d.weeks()), g(d.days()), g(d.hours()), g(d.minutes()), g(d.seconds()), g(d.milliseconds()), g(d.microseconds()), g(d.nanoseconds())]
+}
+fn total(f: &[i128; 10]) -> i128 { (((f[3] * 24 + f[4]) * 60 + f[5]) * 60 + f[6]) * 1_000_000_000 + f[7] * 1_000_000 + f[8] * 1_000 + f[9] }
+const UNITS: [(Unit, i128, usize); 7] = [(Unit::Day, 86_400_000_000_000, 3), (Unit::Hour, 3_600_000_000_000, 4), (Unit::Minute, 60_000_000_000, 5), (Unit::Second, 1_000_000_000, 6), (Unit::Millisecond, 1_000_000, 7), (Unit::Microsecond, 1000, 8), (Unit::Nanosecond, 1, 9)];
+
+/// calendar-free arithmetic: add / compare / round / total against exact integers
+fn arith(rng: &mut Rng, fails: &mut Vec<Failure>) {
+    let sg = |rng: &mut Rng| if rng.next() % 2 == 0 { 1i128 } else { -1 };
+    let gen = |rng: &mut Rng, s: i128| { let mut c = [0i128; 10]; for k in 3..10 { if rng.next() % 2 == 0 { c[k] = s * rng.range(0, [0, 0, 0, 400, 100, 6000, 6000, 5000, 5000, 5000][k]); } } c };
+    let (s1, s2) = (sg(rng), sg(rng));
+    let (a, b) = (gen(rng, s1), gen(rng, s2));
+    let (Some(da), Some(db)) = (mk(a), mk(b)) else { return };
+    // add: exact sum of totals
+    if let Ok(Ok(sum)) = catch_unwind(|| da.add(&db)) {
+        let f = fields(&sum);
+        if total(&f) != total(&a) + total(&b) || (f.iter().any(|v| *v > 0) && f.iter().any(|v| *v < 0)) {
+            fails.push(Failure { what: "Duration::add".into(), input: format!("{a:?} + {b:?}"), expected: format!("total {}", total(&a) + total(&b)), observed: format!("{f:?}") });
+        }
+    }
+    // compare: order of totals
+    if let Ok(Ok(o)) = catch_unwind(|| da.compare(&db, None)) {
+        if o != total(&a).cmp(&total(&b)) { fails.push(Failure { what: "Duration::compare".into(), input: format!("{a:?} vs {b:?}"), expected: format!("{:?}", total(&a).cmp(&total(&b))), observed: format!("{o:?}") }); }
+    }
+    // round (time smallest units) on the exact total, and sign symmetry
+    let (su, su_ns, _) = UNITS[1 + (rng.next() % 6) as usize];
+    let incs: &[u32] = match su { Unit::Hour => &[1, 2, 3, 4, 6, 8, 12], Unit::Minute | Unit::Second => &[1, 2, 5, 10, 15, 20, 30], _ => &[1, 2, 4, 5, 8, 10, 20, 25, 40, 50, 100, 125, 200, 250, 500] };
+    let inc = incs[(rng.next() % incs.len() as u64) as usize];
+    let modes = [(RoundingMode::Ceil, oracle::Mode::Ceil), (RoundingMode::Floor, oracle::Mode::Floor), (RoundingMode::Expand, oracle::Mode::Expand), (RoundingMode::Trunc, oracle::Mode::Trunc), (RoundingMode::HalfCeil, oracle::Mode::HalfCeil),
+        (RoundingMode::HalfFloor, oracle::Mode::HalfFloor), (RoundingMode::HalfExpand, oracle::Mode::HalfExpand), (RoundingMode::HalfTrunc, oracle::Mode::HalfTrunc), (RoundingMode::HalfEven, oracle::Mode::HalfEven)];
+    let (mode, om) = modes[(rng.next() % 9) as usize];
+    // make ties likely: snap the total to a multiple or a midpoint of the step
+    let step = su_ns * inc as i128;
+    let mut a2 = a;
+    if rng.next() % 2 == 0 { let t = total(&a); let snapped = t / step * step + if rng.next() % 2 == 0 { step / 2 } else { 0 }; a2 = [0; 10]; a2[3] = snapped / 86_400_000_000_000; a2[9] = snapped % 86_400_000_000_000; }
+    let Some(da2) = mk(a2) else { return };
+    let mut o = RoundingOptions::default(); o.smallest_unit = Some(su); o.rounding_mode = Some(mode); o.increment = RoundingIncrement::try_new(inc).ok();
+    let want = oracle::round(total(&a2), step, om);
+    let input = format!("{a2:?} smallestUnit={su} increment={inc} mode={mode}");
+    match catch_unwind(|| da2.round(o, None)) {
+        Err(_) => fails.push(Failure { what: "Duration::round panicked".into(), input: input.clone(), expected: format!("total {want}"), observed: "panic".into() }),
+        Ok(Ok(r)) => {
+            let f = fields(&r);
+            if total(&f) != want { fails.push(Failure { what: "Duration::round (exact total)".into(), input: input.clone(), expected: format!("total {want}"), observed: format!("{f:?}") }); }
+            // balanced below the largest unit
+            let radix = [0i128, 0, 0, 0, 24, 60, 60, 1000, 1000, 1000];
+            let top = (3..10).find(|k| f[*k] != 0).unwrap_or(9);
+            for k in (top + 1)..10 { if f[k].abs() >= radix[k] { fails.push(Failure { what: "Duration::round not balanced".into(), input: input.clone(), expected: "fields below the largest unit within their radix".into(), observed: format!("{f:?}") }); break; } }
+            // round(-d) == -round(d) with the mode mirrored
+            let neg = da2.negated();
+            let mirrored = match mode { RoundingMode::Ceil => RoundingMode::Floor, RoundingMode::Floor => RoundingMode::Ceil, RoundingMode::HalfCeil => RoundingMode::HalfFloor, RoundingMode::HalfFloor => RoundingMode::HalfCeil, m => m };
+            let mut o2 = o; o2.rounding_mode = Some(mirrored);
+            if let Ok(Ok(rn)) = catch_unwind(|| neg.round(o2, None)) {
+                let fnr = fields(&rn);
+                if fnr.iter().zip(f.iter()).any(|(x, y)| *x != -*y) { fails.push(Failure { what: "round(-d) != -round(d)".into(), input, expected: format!("{:?}", f.map(|v| -v)), observed: format!("{fnr:?}") }); }
+            }
+        }
+        Ok(Err(_)) => {}
+    }
+    // total: exact total / unit (to double precision)
+    let (tu, tu_ns, _) = UNITS[(rng.next() % 7) as usize];
+    if let Ok(Ok(t)) = catch_unwind(|| da.total(tu, None)) {
+        let want = total(&a) as f64 / tu_ns as f64;
+        let got = t.as_inner();
+        if (got - want).abs() > want.abs() * 1e-12 + 1e-9 { fails.push(Failure { what: "Duration::total".into(), input: format!("{a:?} unit={tu}"), expected: format!("{want}"), observed: format!("{got}") }); }
+    }
+}
+
 pub fn search(rng: &mut Rng, budget: u64, fails: &mut Vec<Failure>) {
     let z = [0i128; 10];
     let mut cases: Vec<[i128; 10]> = Vec::new();
@@ -57,6 +132,7 @@ pub fn search(rng: &mut Rng, budget: u64, fails: &mut Vec<Failure>) {
         for k in 0..10 { if rng.next() % 3 == 0 { c[k] = sg * rng.range(0, [4_294_967_300i128, 4_294_967_300, 4_294_967_300, 200_000_000_000, 3_000_000_000_000, 160_000_000_000_000, p53 + 5, p53 * 1000, p53 * 1_000_000, p53 * 1_000_000_000][k]); } }
         if rng.next() % 5 == 0 { let k = (rng.next() % 10) as usize; c[k] = -c[k]; }
         check(c, fails);
+        arith(rng, fails);
         if fails.len() >= 5 { return; }
     }
 }
